@@ -84,6 +84,76 @@ def run(ctx):
                                   inp, observed={"out": (r.out or b"")[:120], "exc": repr(r.exc), "log": r.log[-1:]},
                                   required=(ref[(view, gplus)] or b"")[:120], replay=rp)
                 res.count("after:" + ("ok" if rows == ref[(view, gplus)] else "BAD"))
+        # ---- the ZIP index cache: every file the server wrote for it, at every prefix, and the cache name itself holding
+        # each of those prefixes (what a dbm back end that keeps its data under the bare name would leave behind)
+        import glob
+        import zipfile
+        ztree = pyg.Tree()
+        try:
+            with zipfile.ZipFile(os.fsdecode(ztree.path("arch.zip")), "w") as z:
+                z.writestr("readme.txt", "read me\n")
+                z.writestr("docs/guide.txt", "guide\n")
+                z.writestr("docs/more/deep.txt", "deep\n")
+            zcfg = pyg.make_config(ztree.root, pyg.FULL_HANDLERS, **{"handlers.ZIP.ZIPHandler|enabled": "true", "handlers.dir.DirHandler|cachetime": "0"})
+            zreqs = [b"/arch.zip\r\n", b"/arch.zip/docs\r\n", b"/arch.zip/docs/guide.txt\r\n", b"/arch.zip/missing\r\n"]
+
+            def answers():
+                return [pyg.request(q, zcfg).out for q in zreqs]
+            for f in glob.glob(os.fsdecode(ztree.path(".cache.pygopherd.zip*"))):
+                os.unlink(f)
+            zref = answers()
+            wrote = sorted(glob.glob(os.fsdecode(ztree.path(".cache.pygopherd.zip*"))))
+            base = os.fsdecode(ztree.path(".cache.pygopherd.zip3.arch.zip"))
+            blobs = {f: open(f, "rb").read() for f in wrote}
+            res.extra["zip_cache_files_written"] = [os.path.basename(f) for f in wrote]
+            cases = []
+            for f, blob in blobs.items():
+                step = 1 if len(blob) <= 400 or ctx.thorough or ctx.deepen else max(1, len(blob) // 200)
+                for k in list(range(0, min(len(blob), 64))) + list(range(64, len(blob), step)):
+                    cases.append((f, blob[:k], k))
+                    if f != base and k < 64:
+                        cases.append((base, blob[:k], k))
+                cases.append((f, bytes(len(blob)), "zeros"))
+            cases += [(base, b"", 0), (base, b"\x00", 1), (base, b"GDBM", 4), (base, bytes(16), "zeros")]
+            # the bare cache name alone (no other back-end files): headers of the dbm formats, cut at every byte
+            for header in (b"\xce\x9a\x57\x13\x00\x10\x00\x00\x00\x00\x00\x00", b"\x13\x57\x9a\xce\x00\x00\x10\x00", b"\x00\x06\x15\x61\x00\x00\x00\x02\x00\x00\x04\xd2",
+                           b"SQLite format 3\x00\x10\x00"):
+                for k in range(len(header) + 1):
+                    cases.append(("ALONE", header[:k], k))
+            for f, data, k in cases:
+                alone = f == "ALONE"
+                if alone:
+                    f = base
+                    for g in glob.glob(os.fsdecode(ztree.path(".cache.pygopherd.zip*"))):
+                        os.unlink(g)
+                else:
+                    for g, blob in blobs.items():     # restore everything, then damage one file
+                        with open(g, "wb") as fh:
+                            fh.write(blob)
+                    if base not in blobs and os.path.exists(base):
+                        os.unlink(base)
+                with open(f, "wb") as fh:
+                    fh.write(data)
+                os.utime(f, None)
+                got = []
+                bad = None
+                for q in zreqs:
+                    r = pyg.request(q, zcfg)
+                    got.append(r.out)
+                    if r.exc is not None or [e for e in r.exceptions() if e != "FileNotFound"]:
+                        bad = (q, r)
+                        break
+                res.evaluations += 1
+                res.nontrivial.add(("zip", os.path.basename(f), k))
+                inp = {"archive": "/arch.zip", "cache_file": os.path.basename(f), "cut_at": k, "other_cache_files_present": not alone}
+                if bad or got != zref:
+                    q, r = bad if bad else (zreqs[0], None)
+                    res.violation("C11:truncated-zip-index", "a request into an archive after its index cache was cut off is not answered as before", inp,
+                                  observed={"request": q, "exc": repr(r.exc) if r else None, "log": r.log[-1:] if r else None, "answers": [x[:60] for x in got]},
+                                  required=[x[:60] for x in zref], replay={"dir": "/arch.zip", "cut_at": k, "cache_file": os.path.basename(f)})
+                res.count("zip-after:" + ("BAD" if bad or got != zref else "ok"))
+        finally:
+            ztree.close()
         res.extra["exhaustive"] = exhaustive
         res.extra["prefixes_that_unpickle"] = prefix_loads
         res.sample({"dir": dirs[0], "every_prefix_of": cachefile, "plus": "zero-filled file"})
